@@ -86,7 +86,9 @@ def one(job):
                                "/repo/", scratch + "/"])
         p = os.path.join(scratch, path)
         ls = open(p).read().split("\n")
-        assert ls[i - 1] == old
+        if ls[i - 1] != old:
+            rec["suite"] = "stale (the tree changed while the run was in progress)"
+            return rec
         ls[i - 1] = new
         open(p, "w").write("\n".join(ls))
         imp = run(["/venv/bin/python", "-c", "import pendulum"], env=dict(os.environ, PYTHONPATH=scratch + "/src"))
